@@ -108,6 +108,38 @@ def classify_operand(a, state, ff, optypes, depth=0):
     return 'OTHER'
 
 
+def writeback_origin(ctx, rule):
+    """Each result of a pairwise operation in bake goes back under the name its operand was read from."""
+    model = ctx.model
+    bake = model.func('Recipe.bake')
+    ff = ctx.flow('Recipe.bake')
+    branches = bake_branches(ctx)
+    # each result goes back under the name its operand was read from
+    for op, (body, node) in sorted(branches.items()):
+        stores = [s for s in ff.stores if s[2] and s[2].startswith('self.results[') and _inside(s[0], node)]
+        for stmt, target, key, value, before, rt in stores:
+            src = _result_source(value)
+            if src is None:
+                continue
+            call, idx = src
+            raw = call.orig if hasattr(call, 'orig') else call
+            args = list(call.args)
+            if isinstance(call.func, ast.Attribute) and not (isinstance(raw.func.value, ast.Name) and raw.func.value.id in model.classes):
+                args = [args[0], call.func.value] + args[1:] if call.func.attr in ('_transfer', '_transfer_slice') else args
+            if not isinstance(idx, int) or idx >= len(args) or call_name(call)[1] not in ('transfer', 'create_solution_from'):
+                continue
+            if call_name(call)[1] == 'create_solution_from' and idx > 0:
+                continue            # the last result is the created container, stored under the step's destination
+            okey = _origin_key(args[idx], before, ff)
+            ok = okey is not None and same_value(strip_refs(okey), strip_refs(rt.slice))
+            ctx.ob(rule, bake, stmt.lineno, f"`{op}` branch: result {idx} of `{call_name(call)[1]}` goes back under the name "
+                                                f"operand {idx} was read from", ok,
+                   fact=f"stored under `{show(rt.slice, 20)}`, operand read from `{show(okey, 20) if okey is not None else '?'}`",
+                   why='the updated object is stored under another name: one declared object is lost, another overwritten',
+                   key=f"write-back name mismatch in {op}")
+
+
+
 def _result_source(value):
     """(call, index) if the stored value is (a field of) the index-th result of an operation call."""
     seen, todo = set(), [value]
@@ -287,29 +319,7 @@ def run(ctx):
                    fact=('key derives from the step record' if ok and not from_operand else 'key derives from an operand that the step-adding method checked as declared' if ok else 'key derives from an operand of the step'),
                    why='the result is stored under a name that was never checked as declared: an undeclared object '
                        'silently enters the results', key=f"result key from operand in {op}")
-    # each result goes back under the name its operand was read from
-    for op, (body, node) in sorted(branches.items()):
-        stores = [s for s in ff.stores if s[2] and s[2].startswith('self.results[') and _inside(s[0], node)]
-        for stmt, target, key, value, before, rt in stores:
-            src = _result_source(value)
-            if src is None:
-                continue
-            call, idx = src
-            raw = call.orig if hasattr(call, 'orig') else call
-            args = list(call.args)
-            if isinstance(call.func, ast.Attribute) and not (isinstance(raw.func.value, ast.Name) and raw.func.value.id in model.classes):
-                args = [args[0], call.func.value] + args[1:] if call.func.attr in ('_transfer', '_transfer_slice') else args
-            if not isinstance(idx, int) or idx >= len(args) or call_name(call)[1] not in ('transfer', 'create_solution_from'):
-                continue
-            if call_name(call)[1] == 'create_solution_from' and idx > 0:
-                continue            # the last result is the created container, stored under the step's destination
-            okey = _origin_key(args[idx], before, ff)
-            ok = okey is not None and same_value(strip_refs(okey), strip_refs(rt.slice))
-            ctx.ob('C08.R2', bake, stmt.lineno, f"`{op}` branch: result {idx} of `{call_name(call)[1]}` goes back under the name "
-                                                f"operand {idx} was read from", ok,
-                   fact=f"stored under `{show(rt.slice, 20)}`, operand read from `{show(okey, 20) if okey is not None else '?'}`",
-                   why='the updated object is stored under another name: one declared object is lost, another overwritten',
-                   key=f"write-back name mismatch in {op}")
+    writeback_origin(ctx, 'C08.R2')
 
     # ---------------------------------------------------------------- R3 no effect before bake
     eff = {k: {a.rstrip('*') for a in v} for k, v in receiver_effects(model).items()}
